@@ -125,7 +125,7 @@ def load_file(src_root, rel, modpath, cfg, counts, out):
                 out.append(Line('', ('src', rel, lineno)))
                 continue
             bu = '' if (modpath + [name])[0] == 'dcs' else ' broadcast use {crate::dcs::group_dcs_params, crate::vf::group_trace};'
-            out.append(Line('%s%smod %s { #[allow(unused_imports)] use vstd::prelude::*; #[allow(unused_imports)] use crate::vf::*;%s' % (mm.group(1), mm.group(2), name, bu), ('src', rel, lineno)))
+            out.append(Line('%s%smod %s { #[allow(unused_imports)] use vstd::prelude::*; #[allow(unused_imports)] use vstd::std_specs::iter::IteratorSpec; #[allow(unused_imports)] use crate::vf::*;%s' % (mm.group(1), mm.group(2), name, bu), ('src', rel, lineno)))
             load_file(src_root, found[0], modpath + [name], cfg, counts, out)
             out.append(Line('%s}' % mm.group(1), ('src', rel, lineno)))
             continue
@@ -176,6 +176,9 @@ REGEX_RULES = [
     ('R1:map_err-into', r"\.map_err\(Into::into\)", r".map_err(|e: DI::Error| -> (r: crate::models::ModelInitError<DI::Error>) ensures r == crate::models::ModelInitError::<DI::Error>::Interface(e) { crate::models::ModelInitError::Interface(e) })"),
     ('R1:map_err-eta', r"map_err\(((?:\w+::)+\w+)\)", r"map_err(|e| \1(e))"),
     ('R2:closure-wildcard', r"\|_\|", r"|_u|"),
+    ('R15:try_into-unwrap', r"let chunk: &mut \[u8; N\] = chunk\.try_into\(\)\.unwrap\(\);", r"let chunk: &mut [u8; N] = crate::vf::slice_as_array_mut(chunk);"),
+    ('R16:cmp-min', r"core::cmp::min\(", r"crate::vf::min_u32("),
+    ('R9:into_iter', r"\b(pixels|item_pixels|colors)\.into_iter\(\)", r"crate::vf::into_iter(\1)"),
     ('R5:sized', r"pub trait InterfacePixelFormat<Word> \{", r"pub trait InterfacePixelFormat<Word>: Sized {"),
     ('R11:to_be_bytes', r"&self\.(\w+)\.to_be_bytes\(\)", r"&crate::vf::u16_to_be_bytes(self.\1)"),
     ('R11:to_be_bytes', r"self\.(\w+)\.to_be_bytes\(\)", r"crate::vf::u16_to_be_bytes(self.\1)"),
@@ -208,18 +211,25 @@ def rewrite_derives(text, counts):
     return re.sub(r'#\[derive\(([^)]*)\)\]', repl, text)
 
 
-def rewrite_question_mark(text, counts):
+def rewrite_question_mark(text, counts, contracts):
     """R14: in builder.rs and models/*, where `?` converts the error type through a user `From` impl, statements
     `[let PAT =] EXPR?;` become Rust's documented desugaring
     `[let PAT =] match EXPR { Ok(v) => v, Err(e) => return Err(From::from(e)) };` (this Verus treats the conversion
     hidden inside `?` as opaque, the explicit call gets the `From` specification).  Line preserving."""
     m = rsscan.mask(text)
-    _, mods, _, _ = rsscan.scan_items(text, m)
+    fns_, mods, _, _ = rsscan.scan_items(text, m)
     ranges = [(o, c) for k, o, c in mods if k == 'builder' or k.startswith('models::')]
+    # functions whose contract carries an `onerr` hook: every `?;` statement gets an explicit early-return arm
+    hooks = []
+    for f in fns_:
+        c = contracts.get(f.key)
+        if c is not None and c.onerr and f.has_body:
+            hooks.append((f.open, f.close, ' '.join(x.strip() for x in c.onerr)))
     edits = []
     for mm in re.finditer(r'\?\s*;', m):
         q = mm.start()
-        if not any(o < q < c for o, c in ranges):
+        hook = [h for h in hooks if h[0] < q < h[1]]
+        if not any(o < q < c for o, c in ranges) and not hook:
             continue
         # statement start: scan back to the previous ; { } at depth 0
         depth = 0
@@ -241,16 +251,105 @@ def rewrite_question_mark(text, counts):
         es = st + (lm.end() if lm else 0)
         if re.match(r'(return|if|match|while|for|loop)\b', m[es:q]):
             continue
-        if '.map_err(' in rsscan.squash(m[es:q]):
+        ident = '.map_err(' in rsscan.squash(m[es:q])
+        if ident and not hook:
             continue   # already converted to the function's error type: `?` is the identity conversion, which Verus handles
-        edits.append((es, q))
-    for es, q in reversed(edits):
-        text = text[:es] + 'match ' + text[es:q] + ' { Ok(v__) => v__, Err(e__) => return Err(core::convert::From::from(e__)) }' + text[q + 1:]
+        edits.append((es, q, ident, hook[0][2] if hook else ''))
+    for es, q, ident, hk in reversed(edits):
+        conv = 'e__' if ident else 'core::convert::From::from(e__)'
+        arm = ('{ %s return Err(%s) }' % (hk, conv)) if hk else ('return Err(%s)' % conv)
+        text = text[:es] + 'match ' + text[es:q] + ' { Ok(v__) => v__, Err(e__) => ' + arm + ' }' + text[q + 1:]
         counts['R14:question-mark-desugared'] = counts.get('R14:question-mark-desugared', 0) + 1
     return text
 
 
-def apply_rewrites(lines, counts, extra_rules=()):
+def rewrite_impl_trait_args(text, counts):
+    """R17: `name: impl IntoIterator<Item = T>` in argument position -> a named type parameter
+    (`fn f<.., VfP: IntoIterator<Item = T>>(.. name: VfP ..)`).  Same meaning (callers here never use turbofish);
+    this Verus generates ill-typed AIR for an anonymous impl-trait parameter mentioned in a trait method's contract."""
+    m = rsscan.mask(text)
+    fns, _, _, _ = rsscan.scan_items(text, m)
+    edits = []
+    for f in fns:
+        sig = text[f.start:f.open]
+        mm = re.search(r'(\w+): impl IntoIterator<Item = ([^>]*)>', sig)
+        if not mm:
+            continue
+        bound = 'VfP: IntoIterator<Item = %s>' % mm.group(2)
+        new = sig[:mm.start()] + '%s: VfP' % mm.group(1) + sig[mm.end():]
+        g = re.match(r'fn\s+\w+\s*<', new)
+        if g:
+            # find the matching '>' of the generics list
+            e = rsscan.skip_angle(new, g.end() - 1)
+            inner = new[g.end():e - 1].rstrip()
+            sep = '' if inner.endswith(',') or inner == '' else ','
+            new = new[:e - 1] + sep + ' ' + bound + new[e - 1:]
+        else:
+            g2 = re.match(r'fn\s+\w+', new)
+            new = new[:g2.end()] + '<' + bound + '>' + new[g2.end():]
+        edits.append((f.start, f.open, new))
+        counts['R17:impl-trait-arg-named'] = counts.get('R17:impl-trait-arg-named', 0) + 1
+    for a, b, t in sorted(edits, reverse=True):
+        text = text[:a] + t + text[b:]
+    return text
+
+
+def rewrite_forloops(text, contracts, counts):
+    """R13: `for PAT in EXPR { B }`  ->  `{ let mut IT = EXPR'; loop { match IT.next() { Some(PAT) => { B } None => { break; } } } }`
+    (Rust's documented desugaring of `for`; EXPR' is EXPR for an expression that already is an iterator, or
+    crate::vf::into_iter(EXPR) for a generic `impl IntoIterator` value).  Applied only to the loops a contract names
+    (`forloop <ordinal> <iterator name> [iter|into]`), so that ordinary `loop` invariants over `IT.remaining()` can be
+    spliced; this Verus has no usable for-loop protocol for generic/prophetic iterators.  Line preserving."""
+    want = {k: c.forloops for k, c in contracts.items() if c.forloops}
+    if not want:
+        return text
+    m = rsscan.mask(text)
+    fns, _, _, _ = rsscan.scan_items(text, m)
+    edits = []
+    for f in fns:
+        if f.key not in want or not f.has_body:
+            continue
+        loops = rsscan.find_loops(m, f.open + 1, f.close)
+        for ordn, (itname, mode) in want[f.key].items():
+            if ordn < 1 or ordn > len(loops) or loops[ordn - 1][0] != 'for':
+                raise Undecided('fn %s: loop %d is not a `for` loop (R13 anchor lost)' % (f.key, ordn))
+            kw, kwi, o, cl = loops[ordn - 1]
+            hdr = text[kwi + 3:o]
+            mh = m[kwi + 3:o]
+            # split PAT / EXPR at ' in ' at depth 0
+            depth = 0
+            pos = None
+            for i, ch in enumerate(mh):
+                if ch in '({[':
+                    depth += 1
+                elif ch in ')}]':
+                    depth -= 1
+                elif depth == 0 and re.match(r'\bin\b', mh[i:]) and not (mh[i - 1].isalnum() or mh[i - 1] == '_'):
+                    pos = i
+                    break
+            if pos is None:
+                raise Undecided('fn %s: cannot split for-loop header' % f.key)
+            pat, expr = hdr[:pos], hdr[pos + 2:]
+            e2 = expr.strip()
+            lead = expr[:len(expr) - len(expr.lstrip())]
+            trail = expr[len(expr.rstrip()):]
+            init = ('crate::vf::into_iter(%s)' % e2) if mode == 'into' else e2
+            new_hdr = '{ let mut %s = %s%s;%s loop { match %s.next() { Some(%s) => {' % (itname, lead, init, trail, itname, pat.strip() + pat[len(pat.rstrip()):])
+            if new_hdr.count('\n') != text[kwi:o + 1].count('\n'):
+                # keep the line count: pad or fail
+                diff = text[kwi:o + 1].count('\n') - new_hdr.count('\n')
+                if diff < 0:
+                    raise Undecided('fn %s: R13 changed the line count' % f.key)
+                new_hdr += '\n' * diff
+            edits.append((kwi, o + 1, new_hdr))
+            edits.append((cl, cl + 1, '} None => { break; } } } }'))
+            counts['R13:for-desugared'] = counts.get('R13:for-desugared', 0) + 1
+    for a, b, t in sorted(edits, reverse=True):
+        text = text[:a] + t + text[b:]
+    return text
+
+
+def apply_rewrites(lines, counts, extra_rules=(), contracts=None):
     text = '\n'.join(l.text for l in lines)
     n0 = text.count('\n')
     text = rewrite_mut_self(text, counts)
@@ -259,7 +358,9 @@ def apply_rewrites(lines, counts, extra_rules=()):
         text, k = re.subn(a, b, text)
         if k:
             counts[name] = counts.get(name, 0) + k
-    text = rewrite_question_mark(text, counts)
+    text = rewrite_impl_trait_args(text, counts)
+    text = rewrite_question_mark(text, counts, contracts or {})
+    text = rewrite_forloops(text, contracts or {}, counts)
     if text.count('\n') != n0:
         raise Undecided('internal: a rewrite changed the line count')
     for l, t in zip(lines, text.split('\n')):
@@ -281,6 +382,10 @@ class Contract:
         self.ats = []           # (regex, where 'before'|'after', text lines)
         self.body_prefix = []   # proof text inserted at the start of the body
         self.replace_sig = []   # (regex, repl) applied to the signature text only
+        self.forloops = OrderedDict()  # ordinal -> (itname, mode)
+        self.pre = OrderedDict()       # ordinal -> lines placed inside the desugared block before the loop
+        self.post = OrderedDict()      # ordinal -> lines placed inside the desugared block after the loop
+        self.onerr = []                # proof text placed in every early-return arm of `?`
         self.props = []
 
 
@@ -331,6 +436,16 @@ def parse_vc(path):
                         sect.append(arg)
                 elif kw == 'loop':
                     sect = cur.loops.setdefault(int(arg), [])
+                elif kw == 'forloop':
+                    parts = arg.split()
+                    cur.forloops[int(parts[0])] = (parts[1], parts[2] if len(parts) > 2 else 'iter')
+                    sect = None
+                elif kw == 'pre':
+                    sect = cur.pre.setdefault(int(arg), [])
+                elif kw == 'post':
+                    sect = cur.post.setdefault(int(arg), [])
+                elif kw == 'onerr':
+                    sect = cur.onerr
                 elif kw == 'body':
                     sect = cur.body_prefix
                 elif kw in ('before', 'after'):
@@ -473,7 +588,7 @@ def splice(lines, contracts, injections, counts, report, externals=()):
                 lost.append('fn %s: body text but no body' % key)
             else:
                 ins.append((f.open + 1, 1, '\n' + '\n'.join(c.body_prefix) + '\n', tag))
-        if c.loops:
+        if c.loops or c.pre or c.post:
             if not f.has_body:
                 lost.append('fn %s: loop clauses but no body' % key)
                 continue
@@ -484,6 +599,16 @@ def splice(lines, contracts, injections, counts, report, externals=()):
                     continue
                 kw, kwi, o, cl = loops[ordn - 1]
                 ins.append((o, 0, '\n' + '\n'.join('    ' + x for x in body) + '\n', tag))
+            for ordn, body in c.pre.items():
+                if ordn < 1 or ordn > len(loops):
+                    lost.append('fn %s: loop %d not found for pre' % (key, ordn))
+                    continue
+                ins.append((loops[ordn - 1][1], 0, '\n' + '\n'.join(body) + '\n', tag))
+            for ordn, body in c.post.items():
+                if ordn < 1 or ordn > len(loops):
+                    lost.append('fn %s: loop %d not found for post' % (key, ordn))
+                    continue
+                ins.append((loops[ordn - 1][3] + 1, 0, '\n' + '\n'.join(body) + '\n', tag))
         for rx, where, body in c.ats:
             if not f.has_body:
                 lost.append('fn %s: anchor but no body' % key)
@@ -495,7 +620,22 @@ def splice(lines, contracts, injections, counts, report, externals=()):
                 continue
             pos = f.open + hits[0].start()
             if where == 'before':
-                ls = text.rfind('\n', 0, pos) + 1
+                # start of the statement that contains the match (statements may span several lines)
+                depth = 0
+                i = pos - 1
+                while i > f.open:
+                    ch = m[i]
+                    if ch in ')]':
+                        depth += 1
+                    elif ch in '([':
+                        depth -= 1
+                    elif depth <= 0 and ch in ';{}':
+                        break
+                    i -= 1
+                st = i + 1
+                while st < pos and m[st] in ' \t\n':
+                    st += 1
+                ls = text.rfind('\n', 0, st) + 1
                 ins.append((ls, 0, '\n'.join(body) + '\n', tag))
             else:
                 le = text.find('\n', f.open + hits[0].end())
@@ -634,6 +774,35 @@ def macro_wrap(lines, counts):
             l.text = t
 
 
+GHOST_FIELDS = [
+    # (struct header regex, last field regex inside it, field to add, constructor literal regex, replacement)
+    ('G1:SpiInterface.ghost_trace', r"pub struct SpiInterface<'a, SPI, DC> \{", r"buffer: &'a mut \[u8\],",
+     " pub ghost_trace: Ghost<Seq<crate::vf::Ev<u8>>>,", r"Self \{ spi, dc, buffer \}", "Self { spi, dc, buffer, ghost_trace: Ghost(Seq::empty()) }"),
+    ('G1:ParallelInterface.ghost_trace', r"pub struct ParallelInterface<BUS, DC, WR> \{", r"wr: WR,",
+     " pub ghost_trace: Ghost<Seq<crate::vf::Ev<u16>>>,", r"Self \{ bus, dc, wr \}", "Self { bus, dc, wr, ghost_trace: Ghost(Seq::empty()) }"),
+]
+
+
+def ghost_fields(lines, counts):
+    """G1: ghost instrumentation (erased at compile time, cannot influence executable code): the two built-in transports
+    get a `ghost_trace` field recording what crossed the Interface boundary; their constructors initialise it empty."""
+    text = '\n'.join(l.text for l in lines)
+    for name, hdr, last, add, ctor, ctor2 in GHOST_FIELDS:
+        mh = re.search(hdr, text)
+        if not mh:
+            raise Undecided('%s: struct not found' % name)
+        ml = re.compile(last).search(text, mh.end())
+        if not ml or text.find('}', mh.end()) < ml.start():
+            raise Undecided('%s: field anchor not found' % name)
+        text = text[:ml.end()] + add + text[ml.end():]
+        text, k = re.subn(ctor, ctor2, text)
+        if k != 1:
+            raise Undecided('%s: constructor literal matched %d times' % (name, k))
+        counts[name] = 1
+    for l, t in zip(lines, text.split('\n')):
+        l.text = t
+
+
 def macro_external(lines, counts):
     """R8: the items generated by generic_bus! are marked external (Verus' front end panics on them; the bus
     `set_value` is proved by Kani, Verus sees the `OutputBus` trait contract)."""
@@ -666,17 +835,18 @@ def extract(repo, verif, cfg, extra_external=()):
     lines = []
     load_file(src_root, 'lib.rs', [], cfg, counts, lines)
     drop_inline_mod(lines, '_mock', counts)
-    apply_rewrites(lines, counts)
+    contracts, injections = load_contracts(os.path.join(verif, 'contracts', 'verus'))
+    apply_rewrites(lines, counts, contracts=contracts)
     macro_wrap(lines, counts)
     macro_external(lines, counts)
-    contracts, injections = load_contracts(os.path.join(verif, 'contracts', 'verus'))
+    ghost_fields(lines, counts)
     externals = load_externals(os.path.join(verif, 'contracts', 'verus', 'externals.txt'))
     externals = list(externals) + list(extra_external)
     report['externals'] = externals
     body = splice(lines, contracts, injections, counts, report, externals)
     prelude = open(os.path.join(verif, 'contracts', 'prelude.rs')).read().split('\n')
     head = ['#![allow(unused_imports, dead_code, unused_variables, unused_mut, unused_assignments, unused_parens, non_snake_case)]',
-            'use vstd::prelude::*;', 'verus! {', 'global size_of usize == 8;', '#[allow(unused_imports)] use crate::vf::*;', 'broadcast use {crate::dcs::group_dcs_params, crate::vf::group_trace};']
+            'use vstd::prelude::*;', 'verus! {', 'global size_of usize == 8;', '#[allow(unused_imports)] use crate::vf::*;', '#[allow(unused_imports)] use vstd::std_specs::iter::IteratorSpec;', 'broadcast use {crate::dcs::group_dcs_params, crate::vf::group_trace};']
     out = [Line(t, ('gen', 'header')) for t in head]
     out += [Line(t, ('gen', 'prelude.rs:%d' % (i + 1))) for i, t in enumerate(prelude)]
     out += body
